@@ -25,6 +25,7 @@ type wCall struct {
 	Kind string `json:"kind"` // create | match | mismatch | update
 	Val  string `json:"val"`
 	API  string `json:"api"` // snap | json | yaml
+	Form string `json:"form,omitempty"` // "value": the JSON document is handed over as a Go value
 }
 
 type wTask struct {
@@ -69,6 +70,9 @@ func genWorkload(r *rand.Rand, ntasks int) *workload {
 			// file size unchanged, which is what size/mtime based "did anything change" shortcuts rely on
 			_ = oldIn
 			c := wCall{Kind: kind, API: api}
+			if api == "json" && r.IntN(2) == 0 {
+				c.Form = "value"
+			}
 			switch kind {
 			case "create":
 				c.Val, _ = valFor(api, id+" new")
@@ -214,7 +218,14 @@ func runTask(root string, cfg *snaps.Config, t wTask, client int, h *recorder, o
 			case "snap":
 				use.MatchSnapshot(tt, c.Val)
 			case "json":
-				use.MatchJSON(tt, c.Val)
+				if c.Form == "value" {
+					// the same document as a marshalable Go value (padded so that encoder buffers matter)
+					var v struct{ V string }
+					json.Unmarshal([]byte(c.Val), &v)
+					use.MatchJSON(tt, map[string]string{"v": v.V})
+				} else {
+					use.MatchJSON(tt, c.Val)
+				}
 			case "yaml":
 				use.MatchYAML(tt, c.Val)
 			}
@@ -308,7 +319,7 @@ func checkC06(c *vkit.Ctx) {
 		freeMode(c)
 		return
 	}
-	n := c.N(600, 40000)
+	n := c.N(4000, 600000)
 	for i := 0; i < n; i++ {
 		if !c.Mine(i) {
 			continue
@@ -473,7 +484,7 @@ func lostAppendClass(g []Grant) string {
 
 // freeMode: unscheduled goroutines, seeded delays at the same points, -race build.
 func freeMode(c *vkit.Ctx) {
-	n := c.N(60, 1500)
+	n := c.N(300, 20000)
 	for i := 0; i < n; i++ {
 		if !c.Mine(i) {
 			continue
